@@ -24,14 +24,34 @@ def patched_norm():
     from jax.scipy.stats import norm
     o_cdf, o_pdf, o_logcdf = norm.cdf, norm.pdf, norm.logcdf
 
-    def _gt_Phi(x):
-        return o_cdf(x)
-
     def _gt_phi(x):
         return o_pdf(x)
 
-    def _gt_logPhi(x):
+    # d Phi(x) = phi(x) dx is given as a custom JVP through the NAMED pdf wrapper, so that under jax.grad / jvp the jaxpr still
+    # contains jit[_gt_Phi] (1 in, 1 out) and jit[_gt_phi] equations that the interpreter hooks recognise
+    @jax.custom_jvp
+    def _Phi(x):
+        return o_cdf(x)
+
+    @_Phi.defjvp
+    def _Phi_jvp(primals, tangents):
+        (x,), (dx,) = primals, tangents
+        return j1(x), j2(x) * dx
+
+    def _gt_Phi(x):
+        return _Phi(x)
+
+    @jax.custom_jvp
+    def _logPhi(x):
         return o_logcdf(x)
+
+    @_logPhi.defjvp
+    def _logPhi_jvp(primals, tangents):
+        (x,), (dx,) = primals, tangents
+        return j3(x), j2(x) / j1(x) * dx
+
+    def _gt_logPhi(x):
+        return _logPhi(x)
     j1, j2, j3 = jax.jit(_gt_Phi), jax.jit(_gt_phi), jax.jit(_gt_logPhi)
     norm.cdf = lambda x, *a, **k: j1(x)
     norm.pdf = lambda x, *a, **k: j2(x)
@@ -115,10 +135,17 @@ class PhiTable:
         return [out]
 
     def hooks(self):
+        def one(f, what):
+            def hook(it, eqn, invals):
+                if len(invals) != 1 or len(eqn.outvars) != 1:
+                    return NotImplemented       # a transformed (jvp / transposed) instance of the wrapper: interpret its body
+                it.stub(what)
+                return self._map(f, invals[0], it)
+            return hook
         return {
-            "_gt_Phi": lambda it, eqn, invals: (it.stub("norm.cdf -> Phi atom") or self._map(self.Phi, invals[0], it)),
-            "_gt_phi": lambda it, eqn, invals: (it.stub("norm.pdf -> exp(-t^2/2)/sqrt(2 pi)") or self._map(self.phi, invals[0], it)),
-            "_gt_logPhi": lambda it, eqn, invals: (it.stub("norm.logcdf -> ln Phi atom") or self._map(self.logPhi, invals[0], it)),
+            "_gt_Phi": one(self.Phi, "norm.cdf -> Phi atom"),
+            "_gt_phi": one(self.phi, "norm.pdf -> exp(-t^2/2)/sqrt(2 pi)"),
+            "_gt_logPhi": one(self.logPhi, "norm.logcdf -> ln Phi atom"),
         }
 
     # ---- numeric evaluation / differentiation
